@@ -80,7 +80,13 @@ Menu == <<
   Def(Inp("Tree", <<ArgN("not", Named("Tree")), ArgD("kids", ListOf(NN(Named("Tree")))), ArgD("depth", Named("Int"))>>)),  \* 48
   \* 49: defaults at the two ends of the signed 32-bit range
   Ext("Query", Obj("Query", <<>>, <<Fld("lim", Named("Int"), <<ArgL("lo", Named("Int"), "-2147483648"), ArgL("hi", Named("Int"), "2147483647")>>, "")>>)),  \* 49
-  DirItem("tagged", <<"ENUM">>, <<>>)                                                                            \* 50 a second definition of @tagged: invalid
+  DirItem("tagged", <<"ENUM">>, <<>>),                                                                           \* 50 a second definition of @tagged: invalid
+  \* 51-55: invalid documents that must be REJECTED WITH A LIBRARY ERROR
+  Def(Obj("ImplEnum", <<"E">>, <<Fld("a", Named("Int"), <<>>, "")>>)),                                            \* 51 implements an enum (needs 5)
+  Def(Obj("ImplObj", <<"Root">>, <<Fld("a", Named("Int"), <<>>, "")>>)),                                          \* 52 implements an object type (needs 9)
+  Def(Enu("DupE", <<[name |-> "A", dep |-> ""], [name |-> "A", dep |-> ""]>>)),                                   \* 53 the same enum value twice
+  Ext("Query", Obj("Query", <<>>, <<Fld("bad", Named("Int"), <<Arg("o", Named("Query"))>>, "")>>)),              \* 54 an argument typed by an object type (the type being built)
+  Ext("String", Obj("String", <<>>, <<Fld("zz", Named("Int"), <<>>, "")>>))                                       \* 55 an extension of a specified scalar, of the wrong kind
 >>
 CONSTANT MenuIdx        \* the menu items that may be picked (the whole menu, or a focus on a few items with a larger MaxItems)
 CONSTANTS Slice, NSlices \* only the documents with (sum of the picked indices) % NSlices = Slice are printed for replay (all are model-checked)
